@@ -137,7 +137,10 @@ type Ref struct {
 	Errors    []ErrKey
 	Calls     []string // "path|Type.field" per resolver invocation, "@path" per directive call
 	Positions []Position
-	errAt     map[string]bool
+	// Groups: "objectPath|label" for every object visited whose selection contains fields
+	// reached through an (effective) @defer fragment - the deferred groups that start.
+	Groups []string
+	errAt  map[string]bool
 	// DeferIgnored: @defer treated as plain (the undeferred reference run)
 }
 
@@ -173,8 +176,10 @@ func (r *Ref) addErr(path, kind string) {
 }
 
 type group struct {
-	key    string
-	fields []*ast.Field
+	key      string
+	deferred bool
+	label    string
+	fields   []*ast.Field
 	// D16 quirk: the type condition context the first field came through
 	cond string
 }
@@ -243,7 +248,33 @@ func (r *Ref) related(a, b string) bool {
 	return false
 }
 
+// deferOf returns (deferred, label) for a fragment's directives.
+func (r *Ref) deferOf(dirs ast.DirectiveList) (bool, string) {
+	d := dirs.ForName("defer")
+	if d == nil {
+		return false, ""
+	}
+	on, label := true, ""
+	for _, a := range d.Arguments {
+		v, err := a.Value.Value(r.Vars)
+		if err != nil {
+			continue
+		}
+		switch a.Name {
+		case "if":
+			on, _ = v.(bool)
+		case "label":
+			label, _ = v.(string)
+		}
+	}
+	return on, label
+}
+
 func (r *Ref) collect(obj *ast.Definition, sel ast.SelectionSet, visited map[string]bool, groups *[]*group, cond string) {
+	r.collectD(obj, sel, visited, groups, cond, false, "")
+}
+
+func (r *Ref) collectD(obj *ast.Definition, sel ast.SelectionSet, visited map[string]bool, groups *[]*group, cond string, dfr bool, dlabel string) {
 	for _, s := range sel {
 		switch s := s.(type) {
 		case *ast.Field:
@@ -273,6 +304,9 @@ func (r *Ref) collect(obj *ast.Definition, sel ast.SelectionSet, visited map[str
 				*groups = append(*groups, g)
 			}
 			g.fields = append(g.fields, s)
+			if dfr {
+				g.deferred, g.label = true, dlabel
+			}
 		case *ast.InlineFragment:
 			if !r.include(s.Directives) {
 				continue
@@ -284,7 +318,11 @@ func (r *Ref) collect(obj *ast.Definition, sel ast.SelectionSet, visited map[str
 			if s.TypeCondition != "" {
 				c = s.TypeCondition
 			}
-			r.collect(obj, s.SelectionSet, visited, groups, c)
+			d2, l2 := dfr, dlabel
+			if on, lb := r.deferOf(s.Directives); on {
+				d2, l2 = true, lb
+			}
+			r.collectD(obj, s.SelectionSet, visited, groups, c, d2, l2)
 		case *ast.FragmentSpread:
 			if r.Quirks.SpreadVisitedBeforeDirective {
 				if visited[s.Name] {
@@ -307,7 +345,11 @@ func (r *Ref) collect(obj *ast.Definition, sel ast.SelectionSet, visited map[str
 			if f == nil || !r.typeApplies(obj, f.TypeCondition) {
 				continue
 			}
-			r.collect(obj, f.SelectionSet, visited, groups, f.TypeCondition)
+			d2, l2 := dfr, dlabel
+			if on, lb := r.deferOf(s.Directives); on {
+				d2, l2 = true, lb
+			}
+			r.collectD(obj, f.SelectionSet, visited, groups, f.TypeCondition, d2, l2)
 		}
 	}
 }
@@ -326,6 +368,13 @@ func (r *Ref) selectionSet(obj *ast.Definition, objPath string, sel ast.Selectio
 	r.collect(obj, sel, map[string]bool{}, &groups, obj.Name)
 	out := &Val{Kind: 'o'}
 	invalid := false
+	seenLabel := map[string]bool{}
+	for _, g := range groups {
+		if g.deferred && !seenLabel[g.label] {
+			seenLabel[g.label] = true
+			r.Groups = append(r.Groups, objPath+"|"+g.label)
+		}
+	}
 	for _, g := range groups {
 		f := g.fields[0]
 		path := joinPath(objPath, g.key)
